@@ -215,8 +215,25 @@ pub fn gen16(r: &mut Rng, n: usize, thorough: bool) -> Vec<String> {
     ] {
         out.push(format!("dec {}", hex(doc)));
     }
+    // deeply nested well-formed values (lists, dictionaries, mixed), closed and with one terminator missing
+    for depth in [1usize, 2, 31, 32, 33, 63, 64, 65, 66, 100, 128, 129, 200, 300] {
+        let lists = [vec![b'l'; depth], vec![b'e'; depth]].concat();
+        let mut dicts = b"d1:k".repeat(depth);
+        dicts.extend_from_slice(b"i7e");
+        dicts.extend(vec![b'e'; depth]);
+        let mut mixed: Vec<u8> = vec![];
+        for k in 0..depth {
+            mixed.extend_from_slice(if k % 2 == 0 { b"l" } else { b"d1:x" });
+        }
+        mixed.extend_from_slice(b"0:");
+        mixed.extend(vec![b'e'; depth]);
+        for d in [lists, dicts, mixed] {
+            out.push(format!("dec {}", hex(&d)));
+            out.push(format!("dec {}", hex(&d[..d.len() - 1])));
+        }
+    }
     // random longer strings over the alphabet, truncations and one-byte mutations of valid documents
-    while out.len() < n.max(11_200) {
+    while out.len() < n.max(11_300) {
         match r.below(6) {
             4 => {
                 // a well-formed document followed by bytes a lenient reader would drop (line ends, blanks, NUL, BOM):
